@@ -167,7 +167,10 @@ def norm_tree(t):
         if len(t) == 3 and t[0] == 'const' and t[1] == 'number' and isinstance(t[2], dict) and 'flt' in t[2]:
             txt = ''.join(chr(c) for c in t[2]['flt'])
             try:
-                v = lexcfg.model_float(txt) if ('e' not in txt and 'n' not in txt and 'i' not in txt) else float(txt)
+                if 'bits' in t[2]:      # the double the model computed (Lexer.literalFloat)
+                    v = lexcfg.float_of_bits(t[2]['bits'])
+                else:
+                    v = lexcfg.model_float(txt) if ('e' not in txt and 'n' not in txt and 'i' not in txt) else float(txt)
             except Exception:  # noqa
                 v = txt
             return ['const', 'number', {'flt': repr(v)}]
